@@ -71,6 +71,16 @@ StrictClock(t) ==
   /\ 10 * (t[4] - 48) + (t[5] - 48) <= 59
 ClockHH(t) == 10 * (t[1] - 48) + (t[2] - 48)
 ClockMM(t) == 10 * (t[4] - 48) + (t[5] - 48)
+\* one- or two-digit fields without blanks ("9:30", "09:5"): the reading of such a text, <<hh, mm>>, or <<>> if it is none
+ParseClock(t) ==
+  LET cpos == {p \in 1..Len(t) : t[p] = Colon} IN
+  IF Cardinality(cpos) # 1 THEN <<>>
+  ELSE LET p == CHOOSE q \in cpos : TRUE
+           h == SubSeq(t, 1, p - 1) m == SubSeq(t, p + 1, Len(t))
+           num(d) == IF Len(d) = 1 THEN d[1] - 48 ELSE 10 * (d[1] - 48) + (d[2] - 48)
+       IN IF Len(h) \in 1..2 /\ Len(m) \in 1..2 /\ (\A q \in 1..Len(h) : IsDigit(h[q])) /\ (\A q \in 1..Len(m) : IsDigit(m[q]))
+             /\ num(h) <= 23 /\ num(m) <= 59
+          THEN <<num(h), num(m)>> ELSE <<>>
 \* lenient spellings the platform's own %H:%M grammar may accept (one-digit fields,
 \* surrounding blanks): the statement does not say whether they are "valid" - left open
 LenientClock(t) ==
